@@ -13,10 +13,11 @@ import numpy as np
 
 from .. import indlib
 
+CRASH_IS_VIOLATION = True     # a worker dying from a signal while it runs indicator code is a finding, not noise
 PROP = 'C13'
 RULE = ('every public indicator with a `sequential` argument x (default + non-default parameter sets drawn from the signature: '
         'periods 2..60, every source type, matype/devtype where present) x series {walk, trend, flat-with-step, spikes, alternating} '
-        'x prefix lengths {~n/3.., n/2, n-1, n-order}; plus a repeatability probe (same call twice with the heap perturbed in '
+        'x prefix lengths {7, 23, 45, ~n/3.., n/2, n-1, n-order}; plus a repeatability probe (same call twice with the heap perturbed in '
         'between); every call gets a private copy of the series, which must come back unmodified. distinct = distinct (indicator, parameter set, series kind, prefix); non-trivial = both calls returned and the '
         'prefix has at least one finite value.')
 ASSUMPTIONS = ['relative tolerance 1e-9, absolute 1e-12 x output scale, NaN == NaN', 'a prefix on which the function raises while '
@@ -81,7 +82,8 @@ def run_job(job):
                                          'witness': {'indicator': name, 'params': kw, 'series': kind, 'n': n}})
                     continue
                 order = kw.get('order', 3) if name == 'minmax' else 0
-                ks = sorted({max(70, n // 3), n // 2 + 1, n - 1, n - max(order, 1) - 1})
+                # (short prefixes too: inputs shorter than an indicator's own look-back take separate code paths)
+                ks = sorted({7, 23, 45, max(70, n // 3), n // 2 + 1, n - 1, n - max(order, 1) - 1})
                 for k in ks:
                     if k >= n:
                         continue
@@ -107,8 +109,9 @@ def run_job(job):
                         if name == 'minmax':
                             upto = max(0, len(a) - order)
                         if len(a) != k:
-                            # length is C14's subject; compare what overlaps
-                            upto = min(upto, len(a), len(b))
+                            # length is C14's subject; compare what overlaps (and only positions that belong to candles of
+                            # the prefix)
+                            upto = min(upto, len(a), len(b), k)
                         bb = b[:len(a)] if len(b) >= len(a) else b
                         i = indlib.equal_values(a[:upto], bb[:upto], scale=indlib.scale_of(X, b))
                         if i is not None:
@@ -162,7 +165,7 @@ def make_jobs(tier, seed):
     for i in range(0, len(names), chunk):
         jobs.append({'names': names[i:i + chunk], 'seed': rng.randrange(1 << 30), 'mode': 'bc',
                      'nparams': 5 if tier == 'quick' else 30, 'n': 160,
-                     'kinds': ['walk', 'spikes', 'gappy', 'zerovol'] if tier == 'quick' else ['walk', 'trend', 'flat', 'spikes', 'alternating', 'gappy', 'lattice', 'zerovol', 'tiny'],
+                     'kinds': ['walk', 'spikes', 'gappy', 'zerovol'] if tier == 'quick' else ['walk', 'trend', 'flat', 'spikes', 'alternating', 'gappy', 'lattice', 'zerovol', 'tiny', 'flattail', 'outside'],
                      'want_sample': i == 0})
     if tier == 'thorough':
         for rep, n_ in enumerate([120, 200, 260, 330, 160, 500]):
